@@ -35,7 +35,7 @@ encode_to_buffer_cb(const void *buffer, size_t size, void *key) {
 
     if(arg->left < size) return -1; /* Data exceeds the available buffer size */
 
-    memcpy(arg->buffer, buffer, size);
+    if(size) memcpy(arg->buffer, buffer, size);
     arg->buffer = ((char *)arg->buffer) + size;
     arg->left -= size;
 
